@@ -354,6 +354,37 @@ def razel_sez(vc):
     vc.ensure("O-C04-inv-razel.sez-roundtrip.vel", vc.eq(back[3:], v, 1e-7))
 
 
+@obligation("C04", "frame_args", ensures=["O-C04-frame.arguments-unchanged"],
+            fns=[TM + "sez2razel", TM + "sez2ecef", TM + "ecef2sez", TM + "lla2ecef", TM + "cartesian2spherical", MS + "getRange", MS + "getAzimuth", MS + "getElevation"], mode="R",
+            note="frame condition: the conversions are functions of their arguments and leave them alone - every element of every array handed in is, afterwards, the very object (natively: the very "
+                 "value) it was before, so converting a state twice, or converting it and then using it, sees the same state (natively also eci2ecef, ecef2eci, ecef2lla, eci2razel, eci2radec, "
+                 "razel2radec, radec2razel, getSlantRangeVector)")
+def frame_args(vc):
+    vc.stub(MA + "wrapAngle2Pi", common.WRAP2PI)
+    s = np.concatenate([vc.vec("r", 3, -1e5, 1e5), vc.vec("v", 3, -10, 10)])
+    vc.assume(s[0] * s[0] + s[1] * s[1] > 1e-4)
+    lat, lon = vc.real("lat", -1.5, 1.5), vc.real("lon", -3.1, 3.1)
+    lla = np.array([lat, lon, vc.real("alt", -0.4, 4e4)], dtype=object if vc.symbolic else float)
+    calls = [(TM + "sez2razel", (s,)), (TM + "sez2ecef", (s, lat, lon)), (TM + "ecef2sez", (s, lat, lon)), (TM + "lla2ecef", (lla,)), (TM + "cartesian2spherical", (s,)),
+             (MS + "getRange", (s,)), (MS + "getAzimuth", (s,)), (MS + "getElevation", (s,))]
+    if not vc.symbolic:
+        import datetime
+        when = datetime.datetime(2020, 6, 1, 3, 4, 5) + datetime.timedelta(seconds=vc.int("when", 0, 86400 * 300))
+        obs = np.array([7000.0, 100.0, -300.0, 0.1, 7.4, 0.2]) + s * 1e-3
+        tgt = s * np.array([1, 1, 1, 0.3, 0.3, 0.3]) * 0.3 + np.array([0.0, 9000.0, 0.0, -6.0, 0.0, 1.0])
+        calls += [(TM + "eci2ecef", (tgt, when)), (TM + "ecef2eci", (tgt, when)), (TM + "ecef2lla", (tgt,)), (TM + "eci2razel", (tgt, obs, when)), (TM + "eci2radec", (tgt, obs, when)),
+                  (TM + "getSlantRangeVector", (obs, tgt, when)), (TM + "eci2lla", (tgt, when)), (TM + "eci2rsw", (tgt, obs)), (TM + "rsw2eci", (tgt, obs))]
+    ok = True
+    for spec_, args in calls:
+        before = [list(a) if isinstance(a, np.ndarray) else None for a in args]
+        for _ in range(2):  # (twice: an in-place change that an even number of calls undoes is still a change)
+            vc.fn(spec_)(*args)
+            for a, b in zip(args, before):
+                if b is not None:
+                    ok = ok and len(a) == len(b) and all((x is y) if vc.symbolic else (x == y) for x, y in zip(a, b))
+    vc.ensure("O-C04-frame.arguments-unchanged", ok)
+
+
 @obligation("C04", "razel_meas", ensures=["O-C04-inv-razel.measurement-inversion", "O-C04-inv-razel.m.cut-norms", "O-C04-inv-razel.m.cut-el",
                                           "O-C04-inv-razel.m.cut-az"],
             fns=[TM + "razel2sez", MS + "getRange", MS + "getAzimuth", MS + "getElevation"], mode="R", ax_lipschitz=True, timeout_ms=60000,
